@@ -57,10 +57,20 @@ class Stack:
         orep = make_observation_representation(KINDS[oname], inner.observation_space) if oname is not None and oname < 3 else None
         self.sname = sname if sname is not None and sname < 3 else None
         self.oname = oname if oname is not None and oname < 3 else None
+        self.problems = []
         self.inner = inner
         self.outer = OuterEnv(inner, state_representation=srep, observation_representation=orep)
         self.gym = GymEnvironment(self.outer)
         self.wrap = GymStateWrapper(self.gym)
+
+    def check_step(self, prev, action, rwd, done):
+        """the reward and flag handed out are the inner environment's own components evaluated on (previous state, action, new state)"""
+        if prev is None or self.inner._state is None:
+            return
+        exp_r = self.inner._reward_function(prev, action, self.inner._state)
+        exp_d = self.inner._termination_function(prev, action, self.inner._state)
+        if not (float(exp_r) == float(rwd) or abs(float(exp_r) - float(rwd)) <= 1e-9 * max(1.0, abs(float(rwd)))) or bool(exp_d) != bool(done) or type(done) is not bool:
+            self.problems.append(f'step returned (reward {rwd!r}, done {done!r}); the inner reward / termination on (state, {action.name}, next state) give ({exp_r!r}, {exp_d!r})')
 
     def do(self, kind, arg):
         A = envs.ACTS
@@ -78,7 +88,9 @@ class Stack:
             self.outer.reset()
             return ('unit',)
         if kind == 'ostep':
+            prev = self.inner._state
             rwd, done = self.outer.step(A[arg])
+            self.check_step(prev, A[arg], rwd, done)
             return ('inner', ('step', rwd, done))
         if kind == 'oobs':
             return c_orepr(self.outer.observation)
@@ -87,9 +99,11 @@ class Stack:
         if kind == 'greset':
             return c_orepr(self.gym.reset())
         if kind == 'gstep':
+            prev = self.inner._state
             o, rwd, done, info = self.gym.step(arg)
             if info != {}:
                 raise AssertionError('info not empty')
+            self.check_step(prev, self.inner.action_space.int_to_action(arg), rwd, done)
             return ('gstep', c_orepr(o), rwd, done)
         if kind == 'gobs':
             return c_orepr(self.gym.observation)
@@ -107,9 +121,11 @@ class Stack:
         if kind == 'wreset':
             return c_srepr(self.wrap.reset())
         if kind == 'wstep':
+            prev = self.inner._state
             s, rwd, done, info = self.wrap.step(arg)
             if set(info) != {'observation'}:
                 raise AssertionError('info keys')
+            self.check_step(prev, self.inner.action_space.int_to_action(arg), rwd, done)
             return ('wstep', c_srepr(s), rwd, done, c_orepr(info['observation']))
         if kind == 'wobs':
             return c_srepr(self.wrap.observation)
@@ -137,6 +153,8 @@ def run_ops(inner, sname, oname, ops, debug, seed):
                 bad = truth(stack, kind, out)
                 if bad:
                     problems.append((len(outs) - 1, bad))
+                while stack.problems:
+                    problems.append((len(outs) - 1, stack.problems.pop(0)))
     finally:
         gvdebug.reset_gv_debug(None)
     return outs, list(j.log), list(j.tape), stack, problems
